@@ -43,6 +43,41 @@ CHECKS = {
                   "oracle; closure search of the settings store",
         engine="hist+store",
     ),
+    "C06": dict(
+        category="model_checking",
+        text="Explicit-state BFS over sequences of 7 valid and 6 invalid "
+             "(steps, options) requests through apply_preprocessing "
+             "(with/without ret_details) and fit_model(preprocessing=...), "
+             "interleaved with fits and a rating: all ordered pairs (quick) "
+             "/ triples (thorough) on a synthetic and recorded curves. "
+             "Oracles: byte equality with a fresh curve, rejection "
+             "predicate, raw-data digest. Pair/sequence quantifier is "
+             "covered completely for the request set.",
+        design_ref="DESIGN.md §2 C06",
+        note="Request set is finite and listed in the evidence; depth "
+             "bound 2 (quick) / 3 (thorough).",
+        technique="explicit-state BFS over request sequences on the real "
+                  "object with differential fresh-object oracle",
+        engine="hist",
+    ),
+    "C10": dict(
+        category="model_checking",
+        text="Explicit-state BFS in twin mode: every history of API calls "
+             "and in-place edits of six long-lived caller objects (depth "
+             "2-6) is executed twice, once handing the API the caller's own "
+             "objects and once handing it deep copies; states must agree "
+             "after every call and argument digests must be unchanged by "
+             "every call. Pure entry points (POC estimators, model and "
+             "residual functions, rater, features) are enumerated over a "
+             "grid with before/after digests.",
+        design_ref="DESIGN.md §2 C10",
+        note="Alias structure is part of the canonical state; an edit "
+             "counts only if the twin notices it (non-vacuity enforced, "
+             "exit 2 otherwise).",
+        technique="explicit-state BFS over call/edit histories, aliased run "
+                  "vs by-value twin (differential), on the implementation",
+        engine="hist",
+    ),
 }
 
 NA_REASON = "check not built yet in this session (under construction; see DESIGN.md §9 work order)"
@@ -79,7 +114,7 @@ def build():
         "engines": [
             {"name": "enum", "path": "mc/props/c14.py", "serves_properties": ["C14"],
              "kind_free_text": "complete enumeration of a finite input domain on the implementation"},
-            {"name": "hist", "path": "mc/hist.py", "serves_properties": ["C03"],
+            {"name": "hist", "path": "mc/hist.py", "serves_properties": ["C03", "C06", "C10"],
              "kind_free_text": "explicit-state breadth-first search over operation histories on real objects (replay from scratch, canonical state hash, per-state and per-transition oracles, merge-soundness and determinism self-checks)"},
             {"name": "store", "path": "mc/props/c03_store.py", "serves_properties": ["C03"],
              "kind_free_text": "closure (fixpoint) search of small dictionary-like stores against a reference model"},
